@@ -215,13 +215,19 @@ theorem SameLinks.recalcLength (t : Tree) (n : Ptr) : SameLinks t (t.recalcLengt
   unfold Tree.recalcLength
   exact SameLinks.modify _ _ _ (by intro _; rfl)
 
+theorem SameLinks.addLensSplit (t : Tree) (c : Ptr) : SameLinks t (t.addLensSplit c) := by
+  unfold Tree.addLensSplit Tree.addLensSplitW
+  split
+  · exact SameLinks.updAnc _ _ _ _ _
+  · exact SameLinks.addLens _ _
+
 /-- the part of `SplitElement` after the allocation and the insertion of the new sibling -/
 theorem splitElement_core {t t2 : Tree} (w : t.WF) (n par : Ptr) (nd : TNode) (hp : nd.parent = none) (hc : nd.children = [])
-    (hpar : (t.get n).parent = some par) (h2 : (t.alloc nd).1.insertAfterInternal par t.size n = .ok t2) (L R : List Ptr)
-    (hperm : (L ++ R).Perm ((t2.addLens t.size).get n).children) :
-    (((((t2.addLens t.size).setChildren n L).setChildren t.size R).recalcLength n).recalcLength t.size).WF ∧
-    Keeps t (((((t2.addLens t.size).setChildren n L).setChildren t.size R).recalcLength n).recalcLength t.size) ∧
-    (((((t2.addLens t.size).setChildren n L).setChildren t.size R).recalcLength n).recalcLength t.size).size = t.size + 1 := by
+    (hpar : (t.get n).parent = some par) (h2 : (t.alloc nd).1.insertAfterInternal par t.size n = .ok t2) (t3 : Tree) (sl3 : SameLinks t2 t3) (L R : List Ptr)
+    (hperm : (L ++ R).Perm (t3.get n).children) :
+    ((((t3.setChildren n L).setChildren t.size R).recalcLength n).recalcLength t.size).WF ∧
+    Keeps t ((((t3.setChildren n L).setChildren t.size R).recalcLength n).recalcLength t.size) ∧
+    ((((t3.setChildren n L).setChildren t.size R).recalcLength n).recalcLength t.size).size = t.size + 1 := by
   have w1 := w.alloc nd hp hc
   have hs1 : (t.alloc nd).1.size = t.size + 1 := rfl
   have g1 := get_alloc t nd w.size_eq
@@ -232,11 +238,10 @@ theorem splitElement_core {t t2 : Tree} (w : t.WF) (n par : Ptr) (nd : TNode) (h
   have hpn : ((t.alloc nd).1.get t.size).parent = none := by rw [g1]; simp [hp]
   have w2 := w1.insertAfterInternal par t.size n hn1 hnew1 hpn h2
   have k2 := insertAfterInternal_keeps w1 par t.size n hn1 hnew1 h2
-  have sl3 := SameLinks.addLens t2 t.size
   have w3 := w2.sameLinks sl3
-  have hs3 : (t2.addLens t.size).size = t.size + 1 := by rw [sl3.1, k2.1, hs1]
+  have hs3 : t3.size = t.size + 1 := by rw [sl3.1, k2.1, hs1]
   -- the new sibling has no children yet
-  have hsc : ((t2.addLens t.size).get t.size).children = [] := by
+  have hsc : (t3.get t.size).children = [] := by
     rw [sl3.children]
     unfold Tree.insertAfterInternal at h2
     split at h2
@@ -253,7 +258,7 @@ theorem splitElement_core {t t2 : Tree} (w : t.WF) (n par : Ptr) (nd : TNode) (h
         · simp only [e, if_false]; rw [g1]; simp [hc]
   have rp := w3.repartition n t.size L R (by rw [hs3]; exact Nat.lt_succ_of_lt hnlt) (by rw [hs3]; exact Nat.lt_succ_self _)
     (Nat.ne_of_lt hnlt) hsc hperm
-  have sl5 := (SameLinks.recalcLength (((t2.addLens t.size).setChildren n L).setChildren t.size R) n).trans
+  have sl5 := (SameLinks.recalcLength ((t3.setChildren n L).setChildren t.size R) n).trans
     (SameLinks.recalcLength _ t.size)
   refine ⟨?_, ⟨?_, ?_⟩, ?_⟩
   · exact rp.1.sameLinks sl5
@@ -283,7 +288,8 @@ theorem splitElement_good {t t' : Tree} {s : Ptr} {src src' : TickSrc} (w : t.WF
         split at h
         · cases h
         · cases h
-          have core := splitElement_core w n par _ rfl rfl hpar h2 _ _ (splitParts_perm (t2.addLens t.size) n offset vv)
+          have core := splitElement_core w n par _ rfl rfl hpar h2 (t2.addLensSplit t.size) (SameLinks.addLensSplit t2 t.size) _ _
+            (splitParts_perm (t2.addLensSplit t.size) n offset vv)
           exact ⟨core.1, core.2.1, rfl, core.2.2⟩
 
 /-- `TreeNode.Split`, text or element -/
